@@ -1,3 +1,45 @@
-From DM Require Import Spec.Table Spec.Ops.
-Theorem C01_placeholder : True. Proof. exact I. Qed.
-Print Assumptions C01_placeholder.
+(* C01 -- cells stay with their rows under any operation history (L0 statements; the tie of L0 to the
+   implementation is the history correspondence of Run/SCore.v).  Statements only. *)
+From Coq Require Import ZArith NArith List Bool String Permutation.
+From DM Require Import Base.PyVal Spec.Nf Spec.Table Spec.Ops Proofs.ListX Proofs.TableFacts Proofs.TakeFacts.
+Import ListNotations.
+
+(* After ANY finite sequence of operations of the alphabet (Spec.Ops.op), applied to any pool members
+   produced so far, every table of the pool has duplicate-free row ids, exactly one cell per row in
+   every column, and every name bound to a column. *)
+Theorem C01_every_history_keeps_the_invariant : forall ops : list op, wwf (run ops w0).
+Proof. exact run_wf0. Qed.
+Print Assumptions C01_every_history_keeps_the_invariant.
+
+Theorem C01_step_keeps_the_invariant : forall w o, wwf w -> wwf (fst (step w o)).
+Proof. exact step_wf. Qed.
+Print Assumptions C01_step_keeps_the_invariant.
+
+(* A derived table (selection, slice, sort, shuffle, sample, shrink, row deletion all go through `take`)
+   takes the same positions from the row ids and from every column: cells stay with their rows, all
+   columns are carried, names and types are kept. *)
+Theorem C01_rows_stay_intact : forall ps t t',
+  twf t -> take ps t = Some t' ->
+  take_pos ps (ids t) = Some (ids t') /\ fam t' = fam t /\ Forall2 (same_rows ps) (view t) (view t').
+Proof. exact take_rows. Qed.
+Print Assumptions C01_rows_stay_intact.
+
+(* an operation changes at most its target; every other pool member reads as before *)
+Theorem C01_frame : forall w o j,
+  (j < List.length (pool w))%nat -> target o <> Some j -> get (fst (step w o)) j = get w j.
+Proof. exact step_frame. Qed.
+Print Assumptions C01_frame.
+
+(* non-vacuity: a concrete history mixing column kinds, selection, sort order, resize and merge *)
+Definition ex_history : list op :=
+  [ONew 3; OSetColKind 0 "f" KFloat; OSetCol 0 "a" (RSeq [PInt 3; PStr "x" None None; PNone]);
+   OSetCol 0 "f" (RSeq [PInt 1; PFloat (FFin false 5 (-1)); PStr "2" (Some 2%Z) (Some (FFin false 1 1))]);
+   OSelect 0 "f" CGe (VInt 2); OSetLength 0 5%Z; OShuffle 0 [4; 0; 3; 1; 2]%nat; OMerge MOr 2 1;
+   OSetCell 2 "a" (ASel 1) (RScalar (PInt 7)); ODelRows 0 [0%Z; (-1)%Z]].
+Example C01_example :
+  map (fun t => (ids t, view t)) (pool (run ex_history w0)) <> [] /\
+  match nth_error (pool (run ex_history w0)) 3 with
+  | Some t => ids t = [0; 1; 2; 3; 4]%N
+  | None => False
+  end.
+Proof. vm_compute. split; [discriminate|reflexivity]. Qed.
